@@ -804,6 +804,103 @@ def hoist_local_imports(sources: Dict[str, str]) -> Dict[str, str]:
     return out
 
 
+def extract_helpers(sources: Dict[str, str]) -> Dict[str, str]:
+    """Extract-function refactoring: the right-hand side of every assignment / the value of every return inside a
+    function that is a call, an operation or a subscript moves into a new private module-level helper
+    `_vt_h<n>(<the local names it reads>)`; the statement calls the helper instead."""
+    import builtins
+    out = {}
+    for p, s in sources.items():
+        tree = ast.parse(s)
+        new_defs: List[ast.stmt] = []
+        counter = [0]
+
+        def local_names(fn) -> set:
+            names = {a.arg for a in fn.args.posonlyargs + fn.args.args + fn.args.kwonlyargs}
+            if fn.args.vararg:
+                names.add(fn.args.vararg.arg)
+            if fn.args.kwarg:
+                names.add(fn.args.kwarg.arg)
+            stack = list(fn.body)
+            while stack:
+                n = stack.pop()
+                if isinstance(n, (ast.FunctionDef, ast.AsyncFunctionDef, ast.ClassDef)):
+                    names.add(n.name)
+                    continue
+                if isinstance(n, ast.Lambda):
+                    continue
+                if isinstance(n, ast.Name) and isinstance(n.ctx, (ast.Store, ast.Del)):
+                    names.add(n.id)
+                if isinstance(n, (ast.Import, ast.ImportFrom)):
+                    for a in n.names:
+                        names.add((a.asname or a.name).split(".")[0])
+                if isinstance(n, ast.ExceptHandler) and n.name:
+                    names.add(n.name)
+                stack.extend(ast.iter_child_nodes(n))
+            return names
+
+        def eligible(e) -> bool:
+            if not isinstance(e, (ast.Call, ast.BinOp, ast.Subscript, ast.Compare, ast.BoolOp, ast.IfExp)):
+                return False
+            for n in ast.walk(e):
+                if isinstance(n, (ast.Yield, ast.YieldFrom, ast.Await, ast.NamedExpr, ast.Lambda, ast.Starred,
+                                  ast.ListComp, ast.SetComp, ast.DictComp, ast.GeneratorExp)):
+                    return False
+                if isinstance(n, ast.Name) and n.id in ("super", "__class__", "locals", "vars"):
+                    return False
+            return True
+
+        def visit_fn(fn, outer: set):
+            mine = local_names(fn)
+            scope = outer | mine
+            has_global = any(isinstance(n, (ast.Global, ast.Nonlocal)) for n in ast.walk(fn))
+
+            def handle(stmts):
+                for st in stmts:
+                    if isinstance(st, (ast.FunctionDef, ast.AsyncFunctionDef)):
+                        visit_fn(st, scope)
+                        continue
+                    if isinstance(st, ast.ClassDef):
+                        continue
+                    for fld in ("body", "orelse", "finalbody"):
+                        sub = getattr(st, fld, None)
+                        if isinstance(sub, list) and sub and isinstance(sub[0], ast.stmt):
+                            handle(sub)
+                    for h in getattr(st, "handlers", []) or []:
+                        handle(h.body)
+                    if has_global:
+                        continue
+                    val = st.value if isinstance(st, (ast.Assign, ast.Return)) else None
+                    if val is None or not eligible(val):
+                        continue
+                    free = []
+                    for n in ast.walk(val):
+                        if isinstance(n, ast.Name) and isinstance(n.ctx, ast.Load) and n.id in scope and n.id not in free:
+                            free.append(n.id)
+                    counter[0] += 1
+                    nm = f"_vt_h{counter[0]}"
+                    d = ast.FunctionDef(name=nm, args=ast.arguments(posonlyargs=[], args=[ast.arg(arg=a) for a in free], kwonlyargs=[], kw_defaults=[], defaults=[]),
+                                        body=[ast.Return(value=val)], decorator_list=[], type_params=[])
+                    new_defs.append(d)
+                    st.value = ast.copy_location(ast.Call(func=ast.Name(id=nm, ctx=ast.Load()), args=[ast.Name(id=a, ctx=ast.Load()) for a in free], keywords=[]), val)
+            handle(fn.body)
+
+        def top(stmts):
+            for st in stmts:
+                if isinstance(st, (ast.FunctionDef, ast.AsyncFunctionDef)):
+                    visit_fn(st, set())
+                elif isinstance(st, ast.ClassDef):
+                    top(st.body)
+                elif isinstance(st, (ast.If, ast.Try)):
+                    for fld in ("body", "orelse", "finalbody"):
+                        top(getattr(st, fld, []) or [])
+        top(tree.body)
+        tree.body.extend(new_defs)
+        ast.fix_missing_locations(tree)
+        out[p] = ast.unparse(tree)
+    return out
+
+
 def rename_all_locals(sources: Dict[str, str]) -> Dict[str, str]:
     out = {}
     for p, s in sources.items():
@@ -891,6 +988,8 @@ def _worker(args):
             overlay = invert_return_guards(sources)
         elif m.old == "<hoist-local-imports>":
             overlay = hoist_local_imports(sources)
+        elif m.old == "<extract-helpers>":
+            overlay = extract_helpers(sources)
         elif m.old == "<keywords-at-call-sites>":
             overlay = keywords_at_call_sites(sources)
         elif m.old == "<swap-if-else>":
@@ -947,6 +1046,7 @@ GENERIC = [
     M("every compound if-test moved into an explaining variable on the line before", "", None, "<explain-if-tests>", "", kind="equiv"),
     M("function-level guards `if c: return` rewritten as `if not c: <rest of the body>`", "", None, "<invert-return-guards>", "", kind="equiv"),
     M("function-level imports moved to the top of the module", "", None, "<hoist-local-imports>", "", kind="equiv"),
+    M("extract function: every computed right-hand side / return value moved into a new private module-level helper", "", None, "<extract-helpers>", "", kind="equiv"),
     M("methods of every class in reverse source order", "", None, "<reverse-methods>", "", kind="equiv"),
     M("swap the branches of every plain if/else under the negated test", "", None, "<swap-if-else>", "", kind="equiv"),
     M("annotate every local that is assigned once (x = v  ->  x: object = v)", "", None, "<annotate-single-assignments>", "", kind="equiv"),
